@@ -2672,7 +2672,20 @@ BINARY (addf, addps)
 BINARY (subf, subps)
 BINARY (mulf, mulps)
 BINARY (divf, divps)
-BINARY (sqrtf, sqrtps)
+/* sqrtf is unary: there is no second source (VEX.vvvv must stay unused) */
+static void
+avx_rule_sqrtf (OrcCompiler *p, void *user, OrcInstruction *insn)
+{
+  const int src = p->vars[insn->src_args[0]].alloc;
+  const int dest = p->vars[insn->dest_args[0]].alloc;
+  const int size = p->vars[insn->src_args[0]].size << p->loop_shift;
+
+  if (size >= 32) {
+    orc_avx_emit_sqrtps (p, src, 0, dest);
+  } else {
+    orc_avx_sse_emit_sqrtps (p, src, 0, dest);
+  }
+}
 BINARY (orf, orps)
 BINARY (andf, andps)
 
